@@ -25,7 +25,7 @@ def segment(i, n=56):
 	return body[:20] + block + body[20:]
 
 
-SEGS = [segment(i) for i in range(10)]
+SEGS = [segment(i) for i in range(12)]
 REFS = [[0, 1, 2], [0, 1, 3], [4, 5, 6], [4, 5, 7], [0, 1, 2], [8, 9]]
 QUERIES = {'g1': [0, 1, 2], 'g2': [0, 1, 8], 'g3': [4, 5, 6, 7], 'g4': [9]}
 QFILES = {'g1': 'g1.fasta', 'g2': 'g2.fa', 'g3': 'g3.fna.gz', 'g4': 'dir.with.dots/g4'}
